@@ -13,7 +13,8 @@ RULE = (
     "pyramids, bipyramids, hulls) in arbitrary lattice pose; f: Point at each feature type, Line/HalfLine/Segment "
     "through every ordered pair of feature types {vertex, edge point, edge carrier beyond the end, face point, "
     "face plane outside the face, interior, exterior lattice point}, Plane through feature triples and in special "
-    "position (face plane, parallel inside/outside, tangent at a vertex/edge); one Hypothesis run per (body kind, "
+    "position (face plane, parallel inside/outside, tangent at a vertex/edge), 1-D flats on a supporting line of a "
+    "face at one of its vertices inside the face plane (touching, stopping short, starting beyond); one Hypothesis run per (body kind, "
     "flat kind, feature recipe). intersection(f,K), intersection(K,f), K.intersection(f) and f.intersection(K) are "
     "compared with the exact vertex enumeration of hrep(f)+hrep(K) (kind by dimension, vertex set within 1e-7). "
     "Helpers: get_segment_from_point_list on generated collinear lists equals the extreme-point segment; the two "
